@@ -13,6 +13,11 @@ spec -> code, four specifications, every record replayed by harness/cmd/c17:
                    same totals 65 535 / 65 536 / 65 537 with the bulk of the bytes in content, in unsigned, in
                    both, in type / state key at their limits, in prev_events, in auth_events, in the signatures
                    of many servers, CheckFields also after SetUnsigned / Sign and on headered JSON.
+                   Besides the error every receipt and every build is judged on what it hands on (`ret`): with
+                   "ok" and with "persistable" the event comes back (fields intact) and EventJSONs.UntrustedEvents
+                   keeps it, a refused one is dropped by it; families "batch2" / "batch3": lists of received events
+                   (ok, byte-only excess per field, code-point excess per field, not an event) through
+                   UntrustedEvents: exactly the accepted and persistable items come back, in order.
   VersionTable.tla the 16 x 12 trait matrix: getters and one behavioural probe per function-valued entry.
 """
 
@@ -36,6 +41,12 @@ def run(ctx):
         "events are hashed and signed with a real ed25519 key (EventBuilder.Build and an independent hash-and-sign); "
         "signature verification itself is not part of this property",
         "key-validity probes keep margins of hours / days to the real clock",
+        "what is handed on: a room ID over the byte limit only is found before there is an event, so whether "
+        "anything comes back with that persistable report is not judged; nor is what the constructors return next "
+        "to a non-persistable error",
+        "room IDs as the room_id of an event: a string the grammar refuses must not get through any constructor; a "
+        "valid room ID must get through in the form the version uses (domainless in 12, with a domain in 1 and 10); "
+        "the other form is not judged",
         "on receipt the event that is judged is the received JSON without its unsigned member (the receiver drops "
         "it, with age_ts / outlier / destinations, before there is an event); a received JSON that is over 65 536 "
         "bytes only with that member may be accepted or refused (never reported persistable), and what is accepted "
@@ -44,21 +55,27 @@ def run(ctx):
     ctx.notes["rule"] = (
         "Ident: every string the speller of Ident.tla reaches (free: all sequences of <= %d atoms over 19 character "
         "classes; struct: sigil/localpart/host/port positions with <= %d deviations from the canonical skeleton, "
-        "PAD strings closed at total lengths 254/255/256), each judged by 4 recognisers + SplitID; "
-        "Base64: all byte strings of <= 3 bytes over the %s byte alphabet x spelling variants; "
+        "PAD strings closed at total lengths 254/255/256; stray: 6 valid identifiers x {LF, CR, TAB, space, NUL} x "
+        "(inserted at every position | replacing every character | runs of 2 / CR LF / up to 255 / up to 256 bytes at 5 spots)), "
+        "each judged by 4 recognisers + SplitID, room-ID-shaped ones also as room_id of an event x 3 constructors' versions x receipt / trusted; "
+        "Base64: all byte strings of <= 3 bytes over the %s byte alphabet x spelling variants, and each of these x JSON spelling "
+        "(plain | one position escaped, every position x every applicable style of backslash-u lower / upper hex, backslash-solidus | all positions escaped); "
         "Limits: field x shape (code points / bytes at, below, above 255; 1-, 2-, 4-byte characters) x path x version "
         "x content hash on receipt (match / mismatch re-parsed after redaction / mismatch unchanged by redaction), "
         "JSON sizes 65535/65536/65537, the same sizes x where the bulk of the bytes is (content, unsigned, half each, "
         "40 bytes of unsigned at the boundary of the total and of the event proper, type + state key at 255, prev_events, "
         "auth_events, signatures of many servers) x path (receipt, Build with ProtoEvent.Unsigned / EventBuilder.SetUnsigned, "
         "CheckFields on trusted / headered JSON, after SetUnsigned, after Sign), and every pair of excesses (field, byte-only | code points) on two of type / state key / sender / room ID / event size; "
+        "every receipt / build also judged on the event handed on and on what EventJSONs.UntrustedEvents keeps; lists of <= %d received events over 9 item kinds x 16 versions; "
         "VersionTable: 16 versions x (getters + 44 probes). "
         "distinct = distinct (parser, grammar description, verdict) / (variant, length, alphabet) / "
         "(family, path, version class, shape class, verdict) / (probe, outcome) classes"
-        % ((3, 2, "7-value") if t == "quick" else (4, 3, "12-value")))
+        % ((3, 2, "7-value", 2) if t == "quick" else (4, 3, "12-value", 3)))
 
     jobs = [("Ident_gen", "Ident_gen_free_%s.cfg" % t, "ident"), ("Ident_gen", "Ident_gen_struct_%s.cfg" % t, "ident"),
-            ("Base64_gen", "Base64_gen_%s.cfg" % t, "b64"),
+            ("Ident_gen", "Ident_gen_stray_%s.cfg" % t, "ident"),
+            ("Base64_gen", "Base64_gen_%s.cfg" % t, "b64"), ("Base64_gen", "Base64_gen_json_%s.cfg" % t, "b64"),
+            ("Limits_gen", "Limits_gen_batch_%s.cfg" % t, "limits"),
             ("Limits_gen", "Limits_gen_single_%s.cfg" % t, "limits"), ("Limits_gen", "Limits_gen_pair_%s.cfg" % t, "limits"),
             ("Limits_gen", "Limits_gen_create_%s.cfg" % t, "limits"), ("Limits_gen", "Limits_gen_place_%s.cfg" % t, "limits"),
             ("VersionTable_gen", "VersionTable_gen_%s.cfg" % t, "table")]
@@ -66,7 +83,7 @@ def run(ctx):
         # quick: the full single-field and pair families run for one version per untrusted constructor (1, 10, 12;
         # pairs also msc4014); the core of the single-field family runs for all 16 versions (the lenient byte limit
         # is a per-version grant).  thorough: the full families for all 16 versions.
-        jobs.insert(3, ("Limits_gen", "Limits_gen_core_quick.cfg", "limits"))
+        jobs.insert(5, ("Limits_gen", "Limits_gen_core_quick.cfg", "limits"))
 
     def replay(cmd, records):
         if cmd == "ident":
@@ -81,11 +98,17 @@ def run(ctx):
         jobs.sort(key=lambda j: 0 if j[2] in ("limits", "table") else 1 if j[2] == "b64" else 2)
         ctx._spec_dir()
         ctx.harness_build(pkg="c17")
-        with concurrent.futures.ThreadPoolExecutor(max_workers=len(jobs)) as ex:
-            futs = [ex.submit(ctx.tlc, m, cfg, 4, 600) for m, cfg, _ in jobs]
+        # at most 8 TLC processes at a time (memory), the long generators submitted first; the results are
+        # taken in the fixed replay order whatever the order of completion
+        long_first = {"Ident_gen_struct_quick.cfg": 0, "Base64_gen_quick.cfg": 1, "Ident_gen_free_quick.cfg": 2,
+                      "Ident_gen_stray_quick.cfg": 3, "Base64_gen_json_quick.cfg": 4}
+        with concurrent.futures.ThreadPoolExecutor(max_workers=8) as ex:
+            futs = {}
+            for m, cfg, _ in sorted(jobs, key=lambda j: long_first.get(j[1], 9)):
+                futs[cfg] = ex.submit(ctx.tlc, m, cfg, 4, 600)
             results = []
-            for (m, cfg, cmd), f in zip(jobs, futs):
-                r = f.result()
+            for m, cfg, cmd in jobs:
+                r = futs[cfg].result()
                 results.append((r.distinct, r.generated))
                 replay(cmd, r.records)
                 del r
